@@ -292,7 +292,9 @@ func init() {
 			add("C20/sno/g3x2", snoBody(3, 2, false, false, 1), d(3), 1000, 16)
 			add("C20/sno/restore/g2x2/clock", snoBody(2, 2, true, true, 1), d(2), 1000, 16)
 		}
-		for i, b := range []*drv.Block{drv.Par(drv.T(), drv.T()), drv.LoopB(drv.T()), drv.SubB(drv.T()), drv.Xor(1, drv.T(), drv.E())} {
+		// (side / dec: a task with several conditional outgoing flows, where a flow ends and
+		// additional flows are started for its token - the pre-generated ids of forked flows)
+		for i, b := range []*drv.Block{drv.Par(drv.T(), drv.T()), drv.LoopB(drv.T()), drv.SubB(drv.T()), drv.Xor(1, drv.T(), drv.E()), drv.Side(), drv.Dec(), drv.Par(drv.Dec(), drv.T()), drv.Incl(-1, drv.T(), drv.T(), drv.T())} {
 			p := drv.Render(fmt.Sprintf("c20e%d", i), b)
 			defs := p.G.Parse()
 			as := p.Assignments()
